@@ -1235,6 +1235,11 @@ pub fn run() -> SimResult {
                     tr!("{} #{} to_string", what, hi);
                     let s = libcall("to_string", || sonic_rs::to_string(&pool[hi].v))?.map_err(|e| mismatch(&what, "to_string", e.to_string()))?;
                     oracle::check_serialized(&s, &pool[hi].m, &what)?;
+                    // Display is the compact serialization; Debug must at least not fail
+                    let (disp, dbg) = libcall("Display / Debug", || (format!("{}", &pool[hi].v), format!("{:?}", &pool[hi].v)))?;
+                    if disp != s || dbg.is_empty() {
+                        return Err(mismatch(&what, "Display", format!("{:?} but to_string gave {:?}", oracle::truncate(&disp), oracle::truncate(&s))));
+                    }
                 }
                 52 => {
                     if pool.len() < 6 {
